@@ -250,6 +250,16 @@ def vm_cond(ctx):
                             n_whole += 1
             if n_whole < 2 or not loops_ok:
                 errs.append('the scan does not range over every entry of both states and every dot')
+            # no verdict without the scan: every path to an `Ok` return goes through the outermost scan loop
+            encl = [lp for lp in loops_of(it) if ebs[0] in lp.blocks or any(b in lp.blocks for b in it.preds.get(ebs[0], []))]
+            encl = encl or [lp for lp in loops_of(it) if fr and fr[1] in lp.blocks]
+            if encl:
+                top = max(encl, key=lambda l: len(l.blocks))
+                oks = [b for b, _ in ret_sites_by(it, lambda v: is_variant(v, 'result::Result', 'Ok'))]
+                rc0 = Reach(facts, vb, Evaluator(facts))
+                byp = [b for b in oks if b in rc0._reach(0, {top.head})]
+                if byp:
+                    errs.append('a path returns Ok without scanning the entries (shortcut at line %d): a reused dot goes unreported there' % block_line(it, byp[0]))
         ctx.check(not errs, inst, vb, 'Err exactly under (different element, equal counter), all pairs scanned', errs[0] if errs else '', details=det)
         if inst == 'map':
             nested = [bb for bb, c in it.calls.items() if cinfo(c.cid)['name'] == 'validate_merge' and cinfo(c.cid)['self'] is None]
